@@ -301,8 +301,18 @@ func (m c12) Run(c *core.Ctx) {
 		if !c.Begin(func() string { return "privacy " + mod }) {
 			continue
 		}
-		p := &Program{Src: "param id\nm := import(\"" + mod + "\")\nold := m.Marker\nm.Marker = id\nm.nested = {id: id}\nreturn [old, import(\"" + mod + "\").Marker]", Builtin: []string{mod}}
-		for _, opt := range []int{-1, 0} {
+		// layouts: execution order of the imports equal to / different from their order in the source
+		imp := "import(\"" + mod + "\")"
+		layouts := []string{
+			"param id\nm := " + imp + "\nold := m.Marker\nm.Marker = id\nm.nested = {id: id}\nreturn [old, " + imp + ".Marker]",
+			"param id\nlate := func() {\n  return " + imp + "\n}\nm := " + imp + "\nold := m.Marker\nm.Marker = id\nm.nested = {id: id}\nreturn [old, late().Marker]",
+			"param id\nvar never\nif id < 0 {\n  never = " + imp + "\n}\nm := " + imp + "\nold := m.Marker\nm.Marker = id\nm.nested = {id: id}\nreturn [old, " + imp + ".Marker]",
+			"param id\nold := undefined\nfor i := 0; i < 2; i++ {\n  if i == 1 {\n    old = " + imp + ".Marker\n  } else {\n    m := " + imp + "\n    old = m.Marker\n    m.Marker = id\n  }\n}\nreturn [old == id ? undefined : old, " + imp + ".Marker]",
+			"param id\nf := func(first) {\n  if first {\n    return " + imp + ".Marker\n  }\n  mm := " + imp + "\n  mm.Marker = id\n  return mm.nested\n}\ng := func() {\n  m := " + imp + "\n  old := m.Marker\n  f(false)\n  return old\n}\nreturn [g(), f(true)]",
+		}
+		for li, opt := 0, 0; li < 2*len(layouts); li++ {
+			p := &Program{Src: layouts[li/2], Builtin: []string{mod}, Tags: []string{fmt.Sprintf("layout %d", li/2)}}
+			opt = []int{-1, 0}[li%2]
 			cr := compileProgram(p, opt)
 			if cr.err != nil {
 				c.Inconclusive("privacy probe does not compile: " + cr.err.Error())
